@@ -174,8 +174,51 @@ def all_files():
     return sorted(fs)
 
 
+MANIFESTS = ["Cargo.toml", "fpdec-core/Cargo.toml", "fpdec-macros/Cargo.toml"]
+MANIFEST_SECTIONS = re.compile(r"^(features|dependencies|dev-dependencies|build-dependencies|profile(\..*)?|lib|lints(\..*)?|target\..*|patch(\..*)?|workspace(\..*)?)$")
+
+
+def manifest_items(path):
+    """the sections of a Cargo manifest that can change what is compiled (features, dependencies, profiles, lib, build.rs);
+    version, description and the like are left out"""
+    try:
+        txt = open(path, encoding="utf-8").read()
+    except OSError:
+        return {}
+    res, cur, buf = {}, None, []
+
+    def flush():
+        if cur is not None and MANIFEST_SECTIONS.match(cur):
+            body = "\n".join(l.split("#")[0].strip() for l in buf if l.split("#")[0].strip())
+            res["[%s]" % cur] = hashlib.sha1(body.encode()).hexdigest()[:16]
+    for line in txt.split("\n"):
+        m = re.match(r"^\s*\[+([^\]]+)\]+\s*$", line)
+        if m:
+            flush(); cur = m.group(1).strip(); buf = []
+        else:
+            if cur is None and re.match(r"^\s*build\s*=", line):
+                res["build script"] = hashlib.sha1(line.strip().encode()).hexdigest()[:16]
+            buf.append(line)
+    flush()
+    if cur is not None:
+        pass
+    # a build script next to the manifest
+    b = os.path.join(os.path.dirname(path), "build.rs")
+    if os.path.exists(b):
+        res["build.rs"] = hashlib.sha1(open(b, "rb").read()).hexdigest()[:16]
+    # the package-level `build =` key lives in [package]
+    pk = re.search(r"^\[package\](.*?)(?=^\[)", txt, re.S | re.M)
+    if pk:
+        mb = re.search(r"^\s*build\s*=.*$", pk.group(1), re.M)
+        if mb: res["build script"] = hashlib.sha1(mb.group(0).strip().encode()).hexdigest()[:16]
+    return res
+
+
 def current():
-    return {f: items(os.path.join(REPO, f)) for f in all_files()}
+    c = {f: items(os.path.join(REPO, f)) for f in all_files()}
+    for mf in MANIFESTS:
+        c[mf] = manifest_items(os.path.join(REPO, mf))
+    return c
 
 
 def recorded():
@@ -265,6 +308,10 @@ def changed_for(pid):
     for f, rx in anchors()[pid]:
         ch, ad = diff_file(cur.get(f, {}), rec.get(f, {}))
         out += ["%s :: %s" % (f, k) for k in ch if rx is None or re.search(rx, k) or k == "use declarations"]
+    # what is compiled at all: features, dependencies, profiles, build scripts of the three manifests (every property)
+    for mf in MANIFESTS:
+        ch, ad = diff_file(cur.get(mf, {}), rec.get(mf, {}))
+        out += ["%s :: %s" % (mf, k) for k in ch + ad]
     return out
 
 
